@@ -11,11 +11,15 @@ def run(ctx):
     ctx.build()
     ctx.assume("a 'no' verdict is only checked for consistency (the statement claims no more)",
                "certificate: covering checked by the spec; H1 and subgroup counts on the library's presentation of the simplified cover")
+    from c15 import prism_files
+    prisms = prism_files(ctx)
     ev = ctx.work / "events.ndjson"
     if ctx.quick:
-        ctx.dsv("C17", "drive", "--out", ev, "--max3d", 3, "--permille", 120, "--cover-depth", 1, timeout=7200)
+        ctx.dsv("C17", "drive", "--out", ev, "--max3d", 3, "--permille", 120, "--cover-depth", 1,
+                "--prisms", prisms, "--prism-cap", 60, timeout=7200)
     else:
-        ctx.dsv("C17", "drive", "--out", ev, "--max3d", 4, "--permille", 100, "--cover-depth", 2, timeout=14400)
+        ctx.dsv("C17", "drive", "--out", ev, "--max3d", 4, "--permille", 100, "--cover-depth", 2,
+                "--prisms", prisms, "--prism-cap", 1500, timeout=14400)
     for ln in open(ev):
         e = json.loads(ln)
         if e.get("reason") != "orbifold invariants do not match":
